@@ -35,6 +35,7 @@ def check (params : List String) (lines : List String) : CaseResult := Id.run do
       r := { r with specs := s!"crash:{w}: child process died without a recognisable panic: {why} {" ".intercalate msg}" :: r.specs }
     | "c17" :: "stack" :: fr => r := { r with infos := s!"stack {" ".intercalate fr}" :: r.infos }
     | "c17" :: "conc" :: ws => conc := some ws
+    | "c17" :: "note" :: _ => pure ()
     | "c17" :: "noquiesce" :: _ =>
       r := { r with specs := "outcome:noquiesce: the instance kept running (no quiescence) under concurrent use" :: r.specs }
     | "c17" :: "blocked" :: what =>
